@@ -317,6 +317,90 @@ fn random_job(ctx: &Ctx, job: usize, iters: u64) -> Stats {
 /// pool of sampled elements (random b-bit values plus neighbours that differ in one high or low
 /// bit), the reference is a BTreeSet, and after every operation `contains` is asked for the whole
 /// pool. `universe()` is left out (its complement cannot be enumerated).
+/// ONE environment shared by two 64-bit sets for a long history (every insert and every membership
+/// query interns about two thousand nodes): the environment grows well beyond a million nodes
+/// while memberships of old and new elements keep being compared with the reference sets.
+fn long_lived_env_job(ctx: &Ctx, target_nodes: usize) -> Stats {
+    use std::collections::BTreeSet;
+    let mut st = Stats::new();
+    let mut rng = Rng::stream(ctx.seed, "C19.longenv", 0);
+    let case = json!({"kind": "long-env", "seed": ctx.seed, "target": target_nodes});
+    st.evals += 1;
+    util::budget(u64::MAX, 1000);
+    let r = guarded(move || {
+        let env = Rc::new(BDDEnv::new());
+        let bits = 64usize;
+        let sets = [BDDSet::with_env(bits, &env), BDDSet::with_env(bits, &env)];
+        let mut refs: [BTreeSet<usize>; 2] = [BTreeSet::new(), BTreeSet::new()];
+        let mut known: Vec<usize> = Vec::new();
+        let mut steps = 0u64;
+        let mut queries = 0u64;
+        while env.size() < target_nodes && steps < 5_000 {
+            steps += 1;
+            let (w, o) = (rng.usize(2), rng.usize(2));
+            let what = match rng.below(10) {
+                0 => {
+                    sets[w].union(&sets[o]);
+                    let other = refs[o].clone();
+                    refs[w].extend(other);
+                    format!("{}.union({})", ["A", "B"][w], ["A", "B"][o])
+                }
+                1 => {
+                    sets[w].intersect(&sets[o]);
+                    let other = refs[o].clone();
+                    refs[w].retain(|e| other.contains(e));
+                    format!("{}.intersect({})", ["A", "B"][w], ["A", "B"][o])
+                }
+                2 if w != o => {
+                    sets[w].complement(&sets[o]);
+                    let other = refs[o].clone();
+                    refs[w].retain(|e| !other.contains(e));
+                    format!("{}.complement({})", ["A", "B"][w], ["A", "B"][o])
+                }
+                _ => {
+                    let x = rng.next() as usize;
+                    sets[w].insert(x);
+                    refs[w].insert(x);
+                    known.push(x);
+                    format!("{}.insert({:#x})", ["A", "B"][w], x)
+                }
+            };
+            // the newest element, two older ones, one never inserted
+            let mut probe: Vec<usize> = Vec::new();
+            if let Some(l) = known.last() {
+                probe.push(*l);
+            }
+            for _ in 0..2 {
+                if !known.is_empty() {
+                    probe.push(known[rng.usize(known.len())]);
+                }
+            }
+            probe.push(rng.next() as usize);
+            for s in 0..2 {
+                for e in &probe {
+                    queries += 1;
+                    let got = sets[s].contains(*e);
+                    if got != refs[s].contains(e) {
+                        return Err((steps, what, s, *e, got, env.size()));
+                    }
+                }
+            }
+        }
+        Ok((steps, queries, env.size()))
+    });
+    match r {
+        Ok(Ok((steps, queries, size))) => {
+            st.add("long_lived_environment_steps", steps);
+            st.add("long_lived_environment_queries", queries);
+            st.max("max_environment_size", size as u64);
+            st.nt.insert(0x19_1000);
+        }
+        Ok(Err((step, what, s, e, got, size))) => st.violate("c19.membership", "C19:long-env:wrong-membership".into(), format!("two 64-bit sets in one environment, step {} ({}): set {} answers contains({:#x}) = {}, the reference says {}; the environment holds {} nodes", step, what, ["A", "B"][s], e, got, !got, size), case),
+        Err(c) => st.violate("c19.panic", format!("C19:long-env:{}", c.signature()), format!("{:?}", c), case),
+    }
+    st
+}
+
 /// Elements wider than a machine word: a user-defined element type (the trait is public).
 #[derive(Clone, Copy, Debug, PartialEq, Eq, PartialOrd, Ord)]
 pub struct Wide(pub u128);
@@ -440,6 +524,9 @@ pub fn run(ctx: &Ctx) -> (Stats, Spec) {
     let parts = util::par_jobs(16, |job| {
         let mut s = random_job(ctx, job, iters);
         s.merge(wide_job(ctx, job, iters / 6));
+        if job == 0 {
+            s.merge(long_lived_env_job(ctx, ctx.tier.pick(1_400_000usize, 5_000_000usize)));
+        }
         s
     });
     st.merge(crate::report::merge_all(parts));
@@ -447,7 +534,7 @@ pub fn run(ctx: &Ctx) -> (Stats, Spec) {
         super::common::miri_tripwire(ctx, &mut st, 150);
     }
     let spec = Spec {
-        rule: "breadth-first over reference states: two sets sharing one environment, each (state pair, next operation) executed on fresh real sets via the shortest history reaching the state; then all memberships of both sets are read twice through contains() and the public bdd field is compared across the queries; plus histories on WIDE sets (b in {31, 32, 33, 40, 48, 63, 64} with usize elements or a user-defined element type, b in {65, 66, 72, 96, 127, 128} with a user-defined 128-bit element type) over pools of sampled elements, their one-bit neighbours and (b > 64) elements equal modulo 2^64; plus random histories of length 5-64 [quick] / 5-504 [thorough] with b in 2..4. distinct = (state pair before the last operation, last operation, b); non-trivial = both sets neither empty nor the universe.".into(),
+        rule: "breadth-first over reference states: two sets sharing one environment, each (state pair, next operation) executed on fresh real sets via the shortest history reaching the state; then all memberships of both sets are read twice through contains() and the public bdd field is compared across the queries; plus histories on WIDE sets (b in {31, 32, 33, 40, 48, 63, 64} with usize elements or a user-defined element type, b in {65, 66, 72, 96, 127, 128} with a user-defined 128-bit element type) over pools of sampled elements, their one-bit neighbours and (b > 64) elements equal modulo 2^64; plus ONE long history of two 64-bit sets in one environment that grows beyond 1.4 million [quick] / 5 million [thorough] nodes, memberships of the newest, older and never-inserted elements compared after every step; plus random histories of length 5-64 [quick] / 5-504 [thorough] with b in 2..4. distinct = (state pair before the last operation, last operation, b); non-trivial = both sets neither empty nor the universe.".into(),
         assumptions: vec![
             "only elements < 2^b are used (the statement speaks of b-bit integers)".into(),
             "`complement` is set difference, as the statement says".into(),
@@ -457,6 +544,7 @@ pub fn run(ctx: &Ctx) -> (Stats, Spec) {
             ("self_aliased_ops".into(), 100, "self-aliased operands never exercised".into()),
             ("wide_set_histories".into(), 200, "wide sets (b >= 31) never exercised".into()),
             ("wide_set_histories_with_a_user_defined_element_type".into(), 50, "sets over a user-defined element type never exercised".into()),
+            ("long_lived_environment_queries".into(), 500, "long-lived environment never exercised".into()),
             ("queries_as_last_op".into(), 500, "queries never exercised as last operation".into()),
             ("distinct_nontrivial".into(), 1_000, "too few non-trivial cases".into()),
         ],
@@ -465,6 +553,12 @@ pub fn run(ctx: &Ctx) -> (Stats, Spec) {
 }
 
 pub fn replay(_ctx: &Ctx, _monitor: &str, case: &Value, st: &mut Stats) {
+    if case.get("kind").and_then(|k| k.as_str()) == Some("long-env") {
+        let mut c2 = _ctx.clone();
+        c2.seed = case.get("seed").and_then(|j| j.as_u64()).unwrap_or(_ctx.seed);
+        st.merge(long_lived_env_job(&c2, case.get("target").and_then(|j| j.as_u64()).unwrap_or(1_400_000) as usize));
+        return;
+    }
     if case.get("kind").and_then(|k| k.as_str()) == Some("wide") {
         let job = case.get("job").and_then(|j| j.as_u64()).unwrap_or(0) as usize;
         let h = case.get("history").and_then(|j| j.as_u64()).unwrap_or(0);
